@@ -99,8 +99,17 @@ Fixpoint distinct_prios (seen : list Z) (l : list sfd) : bool :=
 Definition validate (l : list sfd) : bool :=
   match l with [] => false | _ => distinct_prios [] l end.
 
+(* fix ac707f2: inside the Validate loop `if other, ok := descs["*"+desc.sortTypeName]; ok` is an
+   error too: `S` and `*S` are two keys of the map but one type name in the output *)
+Definition forms_ok (ds : list sdesc) : bool :=
+  forallb (fun d => negb (existsb (fun d' => String.eqb (sd_sorter d') ("*" ++ sd_sorter d)) ds)) ds.
 (* createSorterDesc: None = an error is returned (generation aborts, no file is written) *)
 Definition create (ty : string) (fs : list fieldT) : option (list sdesc) :=
+  let ds := collect ty fs in
+  if forallb (fun d => validate (sd_fields d)) ds
+  then (if forms_ok ds then Some ds else None) else None.
+(* up to 50aeaa4: no such check (the output then declared the type S twice) *)
+Definition create_orig2 (ty : string) (fs : list fieldT) : option (list sdesc) :=
   let ds := collect ty fs in
   if forallb (fun d => validate (sd_fields d)) ds then Some ds else None.
 
